@@ -126,7 +126,17 @@ def vertical_profiles(
     # OAAHOC path where z0/aa/bb may have extra dimensions from tke broadcast.
     zeta = np.arange(0.0, np.squeeze(zetamx).item() + dzeta, dzeta)
 
-    z = -h * np.log(-(zeta - aa) / bb)
+    with np.errstate(invalid="ignore", divide="ignore"):
+        z = -h * np.log(-(zeta - aa) / bb)
+
+    # The stretching maps zeta -> aa to z -> infinity. The last step, which
+    # overshoots the domain height, may reach or pass aa (NaN or infinite top
+    # node): end the grid at the domain height then.
+    if not np.all(np.isfinite(z[..., -1])):
+        if np.all(z[..., -2] < zmx):
+            z[..., -1] = zmx
+        else:
+            z = z[..., :-1]
 
     # Compute wind and eddy diffusivity profiles
     if closure == "CONSTANT":
